@@ -346,6 +346,37 @@ def _last_term_idiom(f):
     if len(loops) != 1:
         return None
     loop = loops[0]
+    # (a) which positions does a descending scan visit at all? counter initialised with rule_size - 1 (or rule_size with
+    #     the element read at counter - 1), a conjunct `counter > K` / `counter >= K` in the loop condition, step -1
+    try:
+        d = (loop.get("init") or {}).get("decls", [None])[0]
+        inc = AI.effects(loop["inc"]) if loop.get("inc") else []
+        if d is not None and d.get("init") is not None and inc and inc[0][0] == "inc" and inc[0][2] == -1:
+            start = cn.c(d["init"])
+            lowk = None
+            for alt in flow.cond_atoms(loop["cond"], True)[:1]:
+                for _k, atom, outcome in alt:
+                    a = strip(atom, casts=True)
+                    if outcome and a is not None and a.get("k") == "BinaryOperator" and a.get("op") in (">", ">=") and \
+                            A.declref_id(strip(a["c"][0], casts=True)) == d["id"]:
+                        k = AI.const_of(a["c"][1])
+                        if k is not None:
+                            lowk = k + (1 if a["op"] == ">" else 0)
+            reads = [cn.c(x["c"][1]) for x in walk(loop["body"]) if x.get("k") == "ArraySubscriptExpr" and
+                     "right_sides" in cn.c(x["c"][0])]
+            if lowk is not None and reads and start in ("($1 - 1)", "$1"):
+                off = 0
+                if all(r.startswith("(@i{") and r.endswith(" - 1)") for r in reads):
+                    off = -1
+                low = lowk + off
+                first = (-1 if start == "($1 - 1)" else 0) + off        # relative to rule_size
+                if low > 0:
+                    return "range: the scan stops at position %d, so a term at position 0 of the right side is never taken " \
+                           "as the rule's last term (a prefix-operator rule gets precedence 0)" % low
+                if first != -1:
+                    return "range: the scan starts at rule_size%+d instead of the last element" % first
+    except (KeyError, IndexError, TypeError):
+        pass
     conds, nodes = PS.event_conditions(cn, loop["body"], unroll=1, drop=_drop_noise)
     rets = [(t, c) for (k, t), c in conds.items() if k == "return"]
     if len(rets) != 1 or any(k in ("break", "continue") for k, t in conds):
